@@ -56,7 +56,7 @@ static const char *probe_names[PR_MAX] = {
 	"thread_exit_nodeinit", "sig_cb", "sig_during_handler", "sig_handoff", "wait_cb",
 	"pid_reused", "kill_dead", "work_run", "work_done", "pool_put_busy", "idle_timeout",
 	"pump_bytes", "pump_full", "pump_eof", "inot_cb", "inot_multi", "popen_kill",
-	"reg_failed_event", "timer_many", "radix_cross", "sig_nowalk", "sig_foreign_thread", "reg_failed_ext", "timer_parked", "reenter_after_quit", "pump_kick", "work_depends",
+	"reg_failed_event", "timer_many", "radix_cross", "sig_nowalk", "sig_foreign_thread", "reg_failed_ext", "timer_parked", "reenter_after_quit", "pump_kick", "work_depends", "task_foreign_init",
 };
 
 extern int __llvm_profile_write_file(void) __attribute__((weak));
@@ -1404,7 +1404,9 @@ static void obs_budget(const char *what)
 }
 static void obs_deadlock(const char *what)
 {
-	viol(strstr(what, "releases a lock") ? "ANY.lock_misuse" : "SIM.deadlock", "%s", what);
+	viol(strstr(what, "releases a lock") ? "ANY.lock_misuse" : strstr(what, "closes descriptor") ? "C18.close_foreign" : "SIM.deadlock", "%s", what);
+	if (strstr(what, "closes descriptor"))
+		viol("ANY.close_foreign", "%s", what);
 	ext_deadlock(what);
 	finish(1);
 }
@@ -1584,8 +1586,10 @@ static void *loop_thread(void *arg)
 	int t = thr_idx(th), c, reenter_left = 0;
 	const struct pthr *pt = &PL->thr[t];
 
-	if (t != 0)
+	if (t != 0) {
 		simk_flag_wait(&first_init_done);
+		hb_acquire((void *)&first_init_done);
+	}
 	for (c = 0; c < pt->cycles && !have_viol(); c++) {
 		th->cycle = c;
 		inited_threads++;
@@ -1593,7 +1597,20 @@ static void *loop_thread(void *arg)
 		th->inited = 1;
 		simk_log(104, t, c);
 		if (t == 0 && c == 0) {
+			int i;
+			/* task structures that the first thread sets up for the others (IV_TASK_INIT here,
+			 * iv_task_register in the owner later): legal, and the task still belongs to the loop it
+			 * is registered with */
+			for (i = 0; i < PL->nobj; i++)
+				if (PL->obj[i].kind == K_TASK && PL->obj[i].owner > 0 && PL->obj[i].p[3] == 1 && RO[i].mem == NULL) {
+					RO[i].memsz = sizeof(struct iv_task);
+					RO[i].mem = malloc(RO[i].memsz);
+					memset(RO[i].mem, 0xA5, RO[i].memsz);
+					IV_TASK_INIT(RO[i].mem);
+					PROBE[PR_TASK_FOREIGN_INIT]++;
+				}
 			ext_after_first_init();
+			hb_release((void *)&first_init_done);	/* what the first thread prepared is handed over with the flag */
 			first_init_done = 1;
 		}
 		if (pt->td) {
